@@ -8,6 +8,46 @@
 // (signed overflow, shifts, division, float casts, bounds), an exception that is not derived from std::exception yields outcome NON_STD
 // which no oracle accepts, and std::terminate / noexcept violations are assertions of the exception lowering.
 #include "C07_reader.cpp"
+// ---- exact-extent twins: the document lives in a heap block of EXACTLY n bytes (operator new(n)), so a read even one byte past
+// the end of the view is a memory-safety failure for CBMC's pointer checks (and for ASan in the native replay) - in the C07 layout
+// the bytes sit inside the larger input record, where such a read would go unnoticed.  Oracle: only the documented outcomes.
+struct ExactDoc {
+	unsigned char* p; size_t n;
+	ExactDoc(const unsigned char* b, size_t n_, size_t cap) : p(static_cast<unsigned char*>(::operator new(n_))), n(n_) { for (size_t i = 0; i < cap; i++) if (i < n) p[i] = b[i]; }
+	~ExactDoc() { ::operator delete(p); }
+	std::string_view view() const { return std::string_view(reinterpret_cast<const char*>(p), n); }
+};
+static inline bool documented(int rc) { return rc == vh::OK || rc == vh::NOT_LOADED || rc == RC_PARSING || rc == RC_MISMATCH || rc == RC_OVERFLOW; }
+template <size_t CAP, class F> static inline int prop_exact(const unsigned char* in, unsigned char* out, F&& f) {
+	size_t n = in[0] <= CAP ? in[0] : CAP;
+	SerializationOptions opt = options(in[1] & 3);
+	ExactDoc doc(in + 2, n, CAP);
+	CMsgPackStringReader r(doc.view(), opt);
+	verif_symbolic_phase();
+	int rc = outcome([&] { return f(r); });
+	size_t pos = r.GetPosition();
+	out[0] = (unsigned char)rc; out[1] = (unsigned char)pos;
+	return documented(rc) && pos <= n;
+}
+VH_EXPORT int va_h02x(const unsigned char* in) { return in[0] <= 9 && !(in[0] && is_container_byte(in[2])); }
+VH_EXPORT int va_h02x_arr(const unsigned char* in) { unsigned b = in[2]; return in[0] <= 9 && !(in[0] && ((b >= 0x80 && b <= 0x8f) || b == 0xde || b == 0xdf)); }   // array headers are read, maps would be skipped recursively (C05)
+VH_EXPORT int va_h02x16(const unsigned char* in) { return in[0] <= 16; }
+VH_EXPORT int vp_h02x_i64(const unsigned char* in, unsigned char* out) { int64_t v = 5; return prop_exact<9>(in, out, [&](CMsgPackStringReader& r) { return r.ReadValue(v); }); }
+VH_EXPORT int vp_h02x_f64(const unsigned char* in, unsigned char* out) { double v = 5; return prop_exact<9>(in, out, [&](CMsgPackStringReader& r) { return r.ReadValue(v); }); }
+VH_EXPORT int vp_h02x_nil(const unsigned char* in, unsigned char* out) { std::nullptr_t v = nullptr; return prop_exact<9>(in, out, [&](CMsgPackStringReader& r) { return r.ReadValue(v); }); }
+VH_EXPORT int vp_h02x_str(const unsigned char* in, unsigned char* out) { std::string_view v; return prop_exact<9>(in, out, [&](CMsgPackStringReader& r) { return r.ReadValue(v); }); }
+VH_EXPORT int vp_h02x_bin(const unsigned char* in, unsigned char* out) { size_t v = 0; return prop_exact<9>(in, out, [&](CMsgPackStringReader& r) { return r.ReadBinarySize(v); }); }
+VH_EXPORT int vp_h02x_arr(const unsigned char* in, unsigned char* out) { size_t v = 0; return prop_exact<9>(in, out, [&](CMsgPackStringReader& r) { return r.ReadArraySize(v); }); }
+VH_EXPORT int vp_h02x_ts(const unsigned char* in, unsigned char* out) { CBinTimestamp v(1, 2); return prop_exact<9>(in, out, [&](CMsgPackStringReader& r) { return r.ReadValue(v); }); }
+VH_EXPORT int vp_h02x_ts16(const unsigned char* in, unsigned char* out) { CBinTimestamp v(1, 2); return prop_exact<16>(in, out, [&](CMsgPackStringReader& r) { return r.ReadValue(v); }); }
+//@ OBL {"name": "h02x_i64", "prop": "vp_h02x_i64", "assume": "va_h02x", "in": 18, "out": 16, "unwind": 12, "unwind_fn": {"SkipValueImpl": 1, "ExactDoc|prop_exact|vp_h02x": 18}, "recursion": {"SkipValueImpl": 0}, "fs": 32, "cap_s": 900, "bounds": "every byte string of length <= 9 held in a heap block of exactly that size, first byte not an array/map header, both policies", "desc": "[exact-extent] ReadValue(int64_t&): no read outside the document, documented outcomes only"}
+//@ OBL {"name": "h02x_f64", "prop": "vp_h02x_f64", "assume": "va_h02x", "in": 18, "out": 16, "unwind": 12, "unwind_fn": {"SkipValueImpl": 1, "ExactDoc|prop_exact|vp_h02x": 18}, "recursion": {"SkipValueImpl": 0}, "fs": 32, "cap_s": 900, "bounds": "every byte string of length <= 9 held in a heap block of exactly that size, first byte not an array/map header, both policies", "desc": "[exact-extent] ReadValue(double&): no read outside the document, documented outcomes only"}
+//@ OBL {"name": "h02x_nil", "prop": "vp_h02x_nil", "assume": "va_h02x", "in": 18, "out": 16, "unwind": 12, "unwind_fn": {"SkipValueImpl": 1, "ExactDoc|prop_exact|vp_h02x": 18}, "recursion": {"SkipValueImpl": 0}, "fs": 32, "cap_s": 900, "bounds": "every byte string of length <= 9 held in a heap block of exactly that size, first byte not an array/map header, both policies", "desc": "[exact-extent] ReadValue(nullptr_t&): no read outside the document, documented outcomes only"}
+//@ OBL {"name": "h02x_str", "prop": "vp_h02x_str", "assume": "va_h02x", "in": 18, "out": 16, "unwind": 12, "unwind_fn": {"SkipValueImpl": 1, "ExactDoc|prop_exact|vp_h02x": 18}, "recursion": {"SkipValueImpl": 0}, "fs": 32, "cap_s": 900, "bounds": "every byte string of length <= 9 held in a heap block of exactly that size, first byte not an array/map header, both policies", "desc": "[exact-extent] ReadValue(string_view&): no read outside the document, documented outcomes only"}
+//@ OBL {"name": "h02x_bin", "prop": "vp_h02x_bin", "assume": "va_h02x", "in": 18, "out": 16, "unwind": 12, "unwind_fn": {"SkipValueImpl": 1, "ExactDoc|prop_exact|vp_h02x": 18}, "recursion": {"SkipValueImpl": 0}, "fs": 32, "cap_s": 900, "bounds": "every byte string of length <= 9 held in a heap block of exactly that size, first byte not an array/map header, both policies", "desc": "[exact-extent] ReadBinarySize: no read outside the document, documented outcomes only"}
+//@ OBL {"name": "h02x_arr", "prop": "vp_h02x_arr", "assume": "va_h02x_arr", "in": 18, "out": 16, "unwind": 12, "unwind_fn": {"SkipValueImpl": 1, "ExactDoc|prop_exact|vp_h02x": 18}, "recursion": {"SkipValueImpl": 0}, "fs": 32, "cap_s": 900, "bounds": "every byte string of length <= 9 held in a heap block of exactly that size, first byte not a map header, both policies", "desc": "[exact-extent] ReadArraySize: no read outside the document, documented outcomes only"}
+//@ OBL {"name": "h02x_ts", "prop": "vp_h02x_ts", "assume": "va_h02x", "in": 18, "out": 16, "unwind": 12, "unwind_fn": {"SkipValueImpl": 1, "ExactDoc|prop_exact|vp_h02x": 18}, "recursion": {"SkipValueImpl": 0}, "fs": 32, "cap_s": 900, "bounds": "every byte string of length <= 9 held in a heap block of exactly that size, first byte not an array/map header, both policies", "desc": "[exact-extent] ReadValue(CBinTimestamp&): no read outside the document, documented outcomes only"}
+//@ OBL {"name": "h02x_ts16", "prop": "vp_h02x_ts16", "assume": "va_h02x16", "in": 18, "out": 16, "unwind": 12, "unwind_fn": {"SkipValueImpl": 1, "ExactDoc|prop_exact|vp_h02x": 18}, "recursion": {"SkipValueImpl": 0}, "fs": 32, "cap_s": 900, "cassume": ["in[2] == 0xd6 || in[2] == 0xd7 || in[2] == 0xd8 || in[2] == 0xc7 || in[2] == 0xc8 || in[2] == 0xc9"], "bounds": "every byte string of length <= 16 starting with a fixext4/8/16, ext8, ext16 or ext32 header, in a heap block of exactly that size", "desc": "[exact-extent] ReadValue(CBinTimestamp&) over the extension family incl. truncation right after the length bytes"}
 //@ OBL {"assume": "va_h07", "in": 20, "out": 24, "unwind": 12, "bounds": "every byte string of length <= 9 whose first byte is not an array/map header, both policies symbolic, previous target value symbolic", "name": "h02_h07a_i16", "prop": "vp_h07a_i16", "desc": "[C02 safety reading] CMsgPackStringReader::ReadValue(int16_t&) == reference decoder (value / policy / parsing error / position) - here: terminates within the unwinding bound, no out-of-bounds access / UB (CBMC memory-safety and ubsan-trap assertions on the encoded real code), any exception is derived from std::exception", "recursion": {"SkipValueImpl": 0, "total_len": 1}, "unwind_fn": {"SkipValueImpl": 1}, "fs": 32, "tier": "quick"}
 //@ OBL {"assume": "va_h07", "in": 20, "out": 24, "unwind": 12, "bounds": "every byte string of length <= 9 whose first byte is not an array/map header, both policies symbolic, previous target value symbolic", "name": "h02_h07a_f32", "prop": "vp_h07a_f32", "desc": "[C02 safety reading] CMsgPackStringReader::ReadValue(float&) == reference decoder (value / policy / parsing error / position) - here: terminates within the unwinding bound, no out-of-bounds access / UB (CBMC memory-safety and ubsan-trap assertions on the encoded real code), any exception is derived from std::exception", "recursion": {"SkipValueImpl": 0, "total_len": 1}, "unwind_fn": {"SkipValueImpl": 1}, "fs": 32, "tier": "quick"}
 //@ OBL {"assume": "va_h07", "in": 20, "out": 24, "unwind": 12, "bounds": "every byte string of length <= 9 whose first byte is not an array/map header, both policies symbolic, previous target value symbolic", "name": "h02_h07a_nil", "prop": "vp_h07a_nil", "desc": "[C02 safety reading] CMsgPackStringReader::ReadValue(std::nullptr_t&) == reference decoder (value / policy / parsing error / position) - here: terminates within the unwinding bound, no out-of-bounds access / UB (CBMC memory-safety and ubsan-trap assertions on the encoded real code), any exception is derived from std::exception", "recursion": {"SkipValueImpl": 0, "total_len": 1}, "unwind_fn": {"SkipValueImpl": 1}, "fs": 32, "tier": "quick"}
@@ -23,3 +63,7 @@
 //@ VEC * 0303dc00100000000000000000000000000000
 //@ VEC * 0101c1000000000000000000000000000000
 //@ VEC * 0401929192c0000000000000000000000000
+//@ VEC h02x_ts16 0300c8000c00000000000000000000000000
+//@ VEC h02x_ts16 0600c9000000080000000000000000000000
+//@ VEC h02x_ts16 0f00c70cff0000000100000000000000020000
+//@ VEC h02x_i64 0900cf01020304050607080000000000000000
